@@ -5,4 +5,7 @@ cd "$(dirname "$0")"
 mkdir -p build/tmp build/tlc evidence replays
 export CARGO_NET_OFFLINE=true
 (cd harness && cargo build --release --offline --quiet)
+# the hooked command-line binary (cfg stylua_verif) used by C13-C20
+(cd /repo && RUSTFLAGS="--cfg stylua_verif --check-cfg cfg(stylua_verif)" CARGO_TARGET_DIR=/verif/build/target-cli \
+   cargo build --offline --quiet --bin stylua --features luau,lua52,lua53,lua54,luajit) || true
 echo "setup ok"
